@@ -38,6 +38,7 @@ class Unit:
     prop = "?"
     name = "?"
     allowed_raises = ()
+    require_post = True    # vacuity guard: every normal exit must receive at least one obligation
     doc = ""
     kind = "unbounded"     # or "finite" (P(fin))
 
@@ -124,6 +125,7 @@ def run_unit(unit):
             res["error"] = "precondition unsatisfiable"
             return res
         npaths = 0
+        vacuous_paths = 0
         outcomes = {}
         for s, out in eng.run(fn, st, args, kwargs):
             npaths += 1
@@ -131,13 +133,19 @@ def run_unit(unit):
             outcomes[key] = outcomes.get(key, 0) + 1
             if out[0] == "raise" and not issubclass(out[1].cls, tuple(unit.allowed_raises)):
                 s.oblige(f"no-unexpected-{out[1].cls.__name__}@{out[1].where}", z3.BoolVal(False))
+            nbefore = len(s.obls)
             unit.post(eng, ctx, s, out)
+            if out[0] == "return" and unit.require_post and len(s.obls) == nbefore:
+                vacuous_paths += 1
             eng.sink(s)
         res["paths"] = npaths
         res["outcomes"] = outcomes
         if npaths == 0:
             res["status"] = "vacuous"
             res["error"] = "no feasible terminal path"
+        elif vacuous_paths:
+            res["status"] = "vacuous"
+            res["error"] = f"{vacuous_paths} normal exit path(s) received no post-condition obligation"
         axioms = list(eng.axioms) + str_axioms()
         if getattr(eng, "uses_rnd", False):
             axioms += B.rnd_axioms()
